@@ -1,9 +1,231 @@
-// Package c05: check for property C05 (stub until implemented).
+// Package c05: a misbehaving peer cannot cause a bad output and is the one blamed
+// (FAULT: exactly one deviation per execution, all of them).
 package c05
 
-import "verif/internal/core"
+import (
+	"fmt"
+	"os"
+	"path/filepath"
+	"runtime"
+	"sort"
+	"strings"
+	"time"
 
-// Implemented reports whether this check is built.
-const Implemented = false
+	"verif/internal/core"
+	"verif/internal/fault"
+	"verif/internal/scen"
+)
 
-func Run(r *core.Run) { r.Cap("not implemented") }
+const Implemented = true
+
+func init() {
+	prev := core.WorkerHook
+	core.WorkerHook = func(args []string) int {
+		if len(args) > 0 && args[0] == "fault" {
+			seed := int64(1)
+			fmt.Sscan(os.Getenv("VERIF_SEED"), &seed)
+			for name, mk := range scen.FaultScenarios(seed) {
+				fault.Register(name, mk)
+			}
+			return fault.WorkerMain(args[1:])
+		}
+		if prev != nil {
+			return prev(args)
+		}
+		return 2
+	}
+}
+
+// notCovered: (protocol family, message type, field) whose alteration the protocol cannot attribute
+// (DESIGN.md Appendix A, "—"): only clauses (a) and (b) apply to them. Everything else is covered by a
+// commitment, a share check or a zero-knowledge proof: a reporting honest party must name exactly the deviator.
+var notCovered = map[string]bool{
+	"ecdsa-signing/SignRound3Message/theta":      true,
+	"ecdsa-signing/SignRound9Message/s":          true,
+	"eddsa-signing/SignRound3Message/s":          true,
+	"ecdsa-resharing/DGRound1Message/ecdsa_pub_x": true,
+	"ecdsa-resharing/DGRound1Message/ecdsa_pub_y": true,
+	"ecdsa-resharing/DGRound1Message/ssid":        true,
+	"eddsa-resharing/DGRound1Message/eddsa_pub_x": true,
+	"eddsa-resharing/DGRound1Message/eddsa_pub_y": true,
+}
+
+func family(scn string) string {
+	for _, f := range []string{"ecdsa-signing", "ecdsa-keygen", "ecdsa-resharing", "eddsa-keygen", "eddsa-signing", "eddsa-resharing"} {
+		if strings.HasPrefix(scn, f) {
+			return f
+		}
+	}
+	return scn
+}
+
+func Run(r *core.Run) {
+	keydir := filepath.Join(core.WorkDir(), fmt.Sprintf("keys-%d", os.Getpid()))
+	_ = os.MkdirAll(keydir, 0o755)
+	defer os.RemoveAll(keydir)
+	os.Setenv("VERIF_KEYDIR", keydir)
+	os.Setenv("VERIF_SEED", fmt.Sprint(r.Seed))
+	for name, mk := range scen.FaultScenarios(r.Seed) {
+		fault.Register(name, mk)
+	}
+	kinds := []string{"plus-one", "generic", "other"}
+	type plan struct {
+		scn      string
+		deviator int
+		allIdx   bool
+		allAddr  bool
+	}
+	full := r.Tier == "thorough"
+	plans := []plan{
+		{"eddsa-keygen", 0, true, true}, {"eddsa-keygen", 1, true, true}, {"eddsa-keygen", 2, true, true},
+		{"eddsa-signing", 0, true, true}, {"eddsa-signing", 1, true, true}, {"eddsa-signing", 2, true, true},
+		{"eddsa-resharing", 0, true, true}, {"eddsa-resharing", 1, true, true}, {"eddsa-resharing", 2, true, true}, {"eddsa-resharing", 3, true, true},
+		{"ecdsa-signing", 0, full, false}, {"ecdsa-signing", 1, full, false},
+	}
+	if full {
+		plans = append(plans,
+			plan{"ecdsa-signing-3", 0, false, false}, plan{"ecdsa-signing-3", 1, false, true}, plan{"ecdsa-signing-3", 2, false, false},
+			plan{"ecdsa-keygen", 0, true, false}, plan{"ecdsa-keygen", 1, true, false},
+			plan{"ecdsa-keygen-3", 1, false, false},
+			plan{"ecdsa-resharing", 0, true, false}, plan{"ecdsa-resharing", 1, true, false}, plan{"ecdsa-resharing", 2, true, false}, plan{"ecdsa-resharing", 3, true, false},
+		)
+	} else {
+		plans = append(plans, plan{"ecdsa-keygen", 1, false, false}, plan{"ecdsa-resharing", 0, false, false}, plan{"ecdsa-resharing", 2, false, false})
+	}
+	var cases []fault.Case
+	for _, p := range plans {
+		cs, _, err := fault.EnumerateFieldCases(p.scn, p.deviator, kinds, p.allIdx, p.allAddr)
+		if err != nil {
+			fmt.Fprintln(os.Stderr, "INFRASTRUCTURE: honest run of", p.scn, "failed:", err)
+			os.Exit(2)
+		}
+		for _, c := range cs {
+			// C05's alphabet: field alterations, field removed, list too short, whole-message mirror; wire-level
+			// garbage and forged routing belong to C06
+			switch {
+			case c.Dev.Field != "" && (c.Dev.Op == "removed" || c.Dev.Op == "drop-last" || contains(kinds, c.Dev.Op)):
+			case strings.HasPrefix(c.Dev.Op, "mirror:"):
+			default:
+				continue
+			}
+			cases = append(cases, c)
+		}
+	}
+	for i := range cases {
+		cases[i].ID = i
+	}
+	t0 := time.Now()
+	outs := fault.Run(cases, runtime.NumCPU()/2, 10*time.Minute, nil)
+	hist := map[string]int{}
+	for i, o := range outs {
+		c := cases[i]
+		if o.ID < 0 {
+			r.Cap(fmt.Sprintf("case %d (%s %s) was not executed", i, c.Scenario, c.Dev.Sig()))
+			continue
+		}
+		r.Count("executions", 1)
+		fam := family(c.Scenario)
+		slot := c.Dev.MsgType + "/" + c.Dev.Field
+		if c.Dev.Field == "" {
+			slot = c.Dev.MsgType + "/<mirror>"
+		}
+		rec := map[string]interface{}{"scenario": c.Scenario, "deviator": c.Deviator, "deviation": c.Dev, "outcome": o}
+		cls := "undetected-harmless"
+		switch {
+		case o.Crash != "" || len(o.Panics) > 0:
+			cls = "crash (see C06)" // C06 owns crashes; not a C05 violation by itself
+			r.Count("crashes_left_to_C06", 1)
+		case !o.Applied:
+			cls = "deviation-point-not-reached"
+		case o.Equivalent:
+			cls = "equivalent-message"
+		case len(o.Errs) > 0:
+			cls = "detected"
+		}
+		hist[cls]++
+		if o.Crash != "" {
+			continue
+		}
+		// (a) no honest party outputs anything bad
+		for _, b := range o.BadOutput {
+			what := b
+			if j := strings.Index(b, ": "); j >= 0 {
+				what = b[j+2:]
+			}
+			r.Violate(fmt.Sprintf("%s/bad-output/%s/%s", fam, slot, strings.ReplaceAll(what, " ", "-")), fmt.Sprintf("an honest party produced a bad output after %s by node %d: %s", c.Dev.Sig(), c.Deviator, b), rec)
+		}
+		// (b) culprits ⊆ {deviator, reporter}; (c) covered => exactly the deviator
+		for _, e := range o.Errs {
+			if e.Node == c.Deviator {
+				continue // the deviating party's own errors are not of interest
+			}
+			var foreign []int
+			namesDev := false
+			for _, cu := range e.Culprits {
+				if cu == c.Deviator {
+					namesDev = true
+				} else if cu != e.Node {
+					foreign = append(foreign, cu)
+				}
+			}
+			if len(foreign) > 0 {
+				r.Violate(fmt.Sprintf("%s/blames-innocent/%s/round%d", fam, slot, e.Round), fmt.Sprintf("honest node %d blames node(s) %v for a deviation of node %d (%s): %s", e.Node, foreign, c.Deviator, c.Dev.Sig(), e.Text), rec)
+			}
+			if !namesDev && !notCovered[fam+"/"+c.Dev.MsgType+"/"+c.Dev.Field] && c.Dev.Field != "" && len(foreign) == 0 {
+				r.Violate(fmt.Sprintf("%s/no-blame-for-covered-value/%s/round%d", fam, slot, e.Round), fmt.Sprintf("honest node %d reports an error for an altered value that is covered by a commitment/share check/proof but does not name the deviating node %d (%s): %s", e.Node, c.Deviator, c.Dev.Sig(), e.Text), rec)
+			}
+		}
+		// (d) resharing: an erased honest old share implies every honest new member emitted valid key data
+		if strings.Contains(fam, "resharing") && len(o.Erased) > 0 {
+			sc, _ := fault.Scenario(c.Scenario)
+			nOld := len(sc.Cfg.EcKeys) + len(sc.Cfg.EdKeys)
+			honestErased := false
+			for _, e := range o.Erased {
+				if e != c.Deviator {
+					honestErased = true
+				}
+			}
+			if honestErased {
+				for n := nOld; n < len(o.Ends); n++ {
+					if n != c.Deviator && o.Ends[n] != 1 {
+						r.Violate(fmt.Sprintf("%s/key-lost/%s", fam, slot), fmt.Sprintf("an honest old member erased its share but honest new member %d did not obtain key data (deviation %s by node %d)", n, c.Dev.Sig(), c.Deviator), rec)
+					}
+				}
+			}
+		}
+		r.Distinct("cases", fmt.Sprintf("%s|%d|%s|%s", c.Scenario, c.Deviator, slot, cls))
+		if i%157 == 0 {
+			r.Sample(6, map[string]interface{}{"scenario": c.Scenario, "deviator": c.Deviator, "deviation": c.Dev.Sig(), "class": cls, "errors": o.Errs})
+		}
+	}
+	var hk []string
+	for k, v := range hist {
+		hk = append(hk, fmt.Sprintf("%s=%d", k, v))
+	}
+	sort.Strings(hk)
+	r.Set("outcome_histogram", hk)
+	r.Set("wall_fault_s", int(time.Since(t0).Seconds()))
+	r.Set("evaluations", int(r.Get("executions")))
+	r.Set("distinct_nontrivial", r.NDistinct("cases"))
+	r.Set("rule", "every execution that differs from the honest FIFO run by exactly one deviation of one party (every position): each bytes field / list element (first, middle, last) of each message type replaced by +1, a same-size generic value, the value another party sent in its corresponding message, or removed; list one element short; whole-message mirror of another party's message. distinct = distinct (scenario, deviator, message slot, outcome class)")
+	r.Assume("crashes and hangs are C06's business and are not counted as C05 violations")
+	r.Assume("attribution table (values not covered by a commitment, share check or proof): " + fmt.Sprint(keysOf(notCovered)))
+}
+
+func contains(l []string, s string) bool {
+	for _, x := range l {
+		if x == s {
+			return true
+		}
+	}
+	return false
+}
+
+func keysOf(m map[string]bool) []string {
+	var k []string
+	for x := range m {
+		k = append(k, x)
+	}
+	sort.Strings(k)
+	return k
+}
